@@ -7,7 +7,8 @@ crates/steel-core/src/rvals.rs (`impl Hash for SteelVal`, `SteelHashMap`, `Steel
     identity and is called twice joined by `&&` (defect K11a);
   * whether the immutable-vector arm `return false`s when the pair is not to be visited (K11a);
   * what the list short cut compares (storage+index of the first node only, or also the next pointer) and
-    under which identity lists enter `visited` (K11j);
+    under which identity lists enter `visited` (K11j); whether the loop over the elements of two lists rejects
+    on different discriminants (seeded defect m1);
   * which same-kind arms the worklist `match (left, right)` has (K11b: Rational, BigRational,
     Complex, ByteVector, BoxedFunction);
   * whether zero floats hash alike (K11c), whether hash maps / hash sets hash independently of the
@@ -122,6 +123,27 @@ def main():
         die("the inner fast path of the list arm changed shape")
     if (inner.group(1) is not None) != sc_next:
         die("the inner fast path of the list arm and its short cut disagree about the next pointer")
+    # the loop that pairs up the elements: besides the list short cut and the catch-all that queues the pair
+    # only harmless on-the-spot comparisons of same-kind leaves are understood; a discriminant check is m1
+    m = find(list_arm, r"for\s*\(lvalue,\s*rvalue\)\s*in\s*l\.iter\(\)\.zip\(r\.iter\(\)\)", "the element loop of the list arm")
+    eloop = block_after(list_arm, m.end())
+    if "self.left.push_back(a.clone())" not in eloop or "self.right.push_back(b.clone())" not in eloop:
+        die("the element loop of the list arm no longer queues the pairs")
+    leaf_arms = re.findall(
+        r"\(SteelVal::(\w+)\(a\),\s*SteelVal::(\w+)\(b\)\)\s*=>\s*\{\s*if\s+a\s*!=\s*b\s*\{\s*return false;\s*\}\s*\}", eloop)
+    for a, b in leaf_arms:
+        if a != b or a not in ("IntV", "BoolV", "CharV", "NumV", "StringV", "SymbolV"):
+            die("the element loop of the list arm compares (%s, %s) on the spot: not understood" % (a, b))
+    disc_arms = re.findall(
+        r"\(a,\s*b\)\s*if\s+core::mem::discriminant\(a\)\s*!=\s*core::mem::discriminant\(b\)\s*=>\s*\{\s*return false;\s*\}", eloop)
+    n_ret = len(re.findall(r"return\s+false", eloop))
+    if n_ret != len(leaf_arms) + len(disc_arms):
+        die("the element loop of the list arm returns false in a way that is not understood (%d returns, %d leaf arms, "
+            "%d discriminant arms)" % (n_ret, len(leaf_arms), len(disc_arms)))
+    if "discriminant" in eloop and not disc_arms:
+        die("the element loop of the list arm looks at discriminants in a way that is not understood")
+    info["list_element_loop"] = {"leaf_arms": [a for a, _ in leaf_arms], "discriminant_reject": len(disc_arms)}
+
     m = find(list_arm, r"self\.should_visit\(([^;{]*)\)\s*(?:&&[^{]*)?\{", "should_visit in the list arm")
     vkey = re.sub(r"\s+", " ", m.group(1))
     by_head = "l.as_ptr_usize()" in vkey and "identity_tuple" not in list_arm
@@ -200,6 +222,7 @@ def main():
         "armBoxedFunction": arms["BoxedFunction"],
         "listShortcutChecksNext": sc_next and pe_next,
         "listVisitedByHead": by_head,
+        "listInnerKindReject": len(disc_arms) > 0,
         "hashZeroUnified": zero,
         "hashUnordered": hash_unordered,
         "hashVecUnified": vec_unified,
